@@ -188,6 +188,43 @@ static void layout_case(uint64_t m, int variant /*0 native,1 generic,2 ref,3 fma
       break;
     }
   }
+  // the conversions move bits: signed zeros, NaN payloads, subnormals and infinities in the source, destinations holding +0.0, -0.0,
+  // a byte pattern or a signalling NaN beforehand; the round trip is compared word for word
+  {
+    static const uint64_t SPECIAL[] = {0x0000000000000000ull, 0x8000000000000000ull, 0x3FF8000000000000ull, 0xC004000000000000ull, 0x0000000000000001ull, 0x8000000000000001ull,
+                                       0x7FF8000000000123ull, 0xFFF8000000000456ull, 0x7FF0000000000000ull, 0x0010000000000000ull};
+    static const uint64_t BG[4] = {0x0000000000000000ull, 0x8000000000000000ull, 0x5B5B5B5B5B5B5B5Bull, 0x7FF4DEADBEEF0001ull};
+    rng_t* r = crng();
+    uint64_t *cw = (uint64_t*)c, *rw = (uint64_t*)r4, *bw = (uint64_t*)back;
+    for (int bg = 0; bg < 4; bg++) {
+      for (uint64_t i = 0; i < 2 * m; i++) {
+        cw[i] = (rng_u64(r) & 1) ? SPECIAL[rng_u64(r) % 2] : SPECIAL[rng_u64(r) % ARRAY_LEN(SPECIAL)];
+        rw[i] = BG[bg];
+        bw[i] = BG[(bg + 1) & 3];
+      }
+      if (variant <= 1) {
+        reim4_from_cplx(pf, r4, c);
+        reim4_to_cplx(pt, back, r4);
+      } else if (variant == 2) {
+        reim4_from_cplx_ref(pf, r4, c);
+        reim4_to_cplx_ref(pt, back, r4);
+      } else {
+        reim4_from_cplx_fma(pf, r4, c);
+        reim4_to_cplx_fma(pt, back, r4);
+      }
+      if (memcmp(back, c, 2 * m * 8)) viol("oracle", "cplx -> reim4 -> cplx [%s]: m=%" PRIu64 " is not a bit-for-bit identity (signed zeros / NaN payloads in the source, destinations pre-filled with %016" PRIx64 " / %016" PRIx64 ")", vn[variant], m, BG[bg], BG[(bg + 1) & 3]);
+      // the 4-block vector holds exactly the source words (as a multiset per block)
+      uint64_t sa = 0, sb = 0, xa = 0, xb = 0;
+      for (uint64_t i = 0; i < 2 * m; i++) {
+        sa += mix64(cw[i]);
+        sb += mix64(rw[i]);
+        xa ^= cw[i];
+        xb ^= rw[i];
+      }
+      if (sa != sb || xa != xb) viol("oracle", "reim4_from_cplx [%s]: m=%" PRIu64 ": the 4-block vector does not hold the source words bit for bit (destination pre-filled with %016" PRIx64 ")", vn[variant], m, BG[bg]);
+      cnt("bitwise_block_copies_checked", 2);
+    }
+  }
   long wh;
   if (gb_check(&gc, &wh) || gb_check(&g4, &wh) || gb_check(&gb, &wh)) viol("canary", "reim4 layout conversion [%s] m=%" PRIu64 " accessed outside a 2m-double buffer (%ld)", vn[variant], m, wh);
   free(pf);
